@@ -258,4 +258,85 @@ mod vk_vec {
         if fin { drop(it); } else { let s = it.into_seq_iter(); drop(s); }
         // postcondition (checked by CBMC's memory-leak check at the end of the harness): nothing remains allocated
     }
+
+    // ---- the contracts of the three unsafe helpers, exactly as the Verus unit contracts/vec.vrs ASSUMES them (external_body),
+    //      checked here on the real bodies (bounded in the length, complete in the scalar arguments) ----
+
+    // @harness name=vec_helper_take_one props=C08,C02,C17 kind=bounded bound="len <= 3; index symbolic (requires idx < len)"
+    #[kani::proof]
+    #[kani::unwind(5)]
+    fn vec_helper_take_one() {
+        let len: usize = kani::any();
+        kani::assume(len >= 1 && len <= N);
+        let it = mk(len);
+        let i: usize = kani::any();
+        kani::assume(i < len);                                   // requires item_idx < vec_len
+        let x = unsafe { it.take_one(i) };
+        assert!(x.0 == i, "[C02 C08 helper-take-one] take_one(i) returns the element at position i");
+        assert!(drops()[i] == 0, "[C08 helper-take-one] take_one moves the element out without dropping it");
+        std::mem::forget(x);
+        // nothing else changed: every other element is still there exactly once
+        it.counter().store(i + 1);
+        let mut k = i + 1;
+        let mut s = it.into_seq_iter();
+        while k < len { let y = s.next(); assert!(y.is_some() && y.as_ref().unwrap().0 == k, "[C08 helper-take-one-frame] take_one leaves every other element in place"); k += 1; }
+        kani::cover!(i + 1 < len, "elements after i");
+    }
+
+    // @harness name=vec_helper_take_slice props=C08,C03,C17 kind=bounded bound="len <= 3; begin, len arguments over the full usize domain (requires begin <= vec_len); any number of items consumed"
+    #[kani::proof]
+    #[kani::unwind(5)]
+    #[kani::stub(std::vec::Vec::from_raw_parts, s_from_raw_parts)]
+    fn vec_helper_take_slice() {
+        let len: usize = kani::any();
+        kani::assume(len <= N);
+        let it = mk(len);
+        let b: usize = kani::any();
+        let n: usize = kani::any();
+        kani::assume(b <= len);                                  // requires begin_idx <= vec_len
+        let e = clamp_end(b, n, len);
+        let take: usize = kani::any();
+        {
+            let mut ch = unsafe { it.take_slice(b, n) };
+            assert!(ch.len() == e - b, "[C03 C08 helper-take-slice-len] take_slice(b, n) yields exactly the positions [b, min(b + n, len))");
+            let mut k = 0;
+            while k < e - b && k < take { let x = ch.next().unwrap(); assert!(x.0 == b + k, "[C03 C08 helper-take-slice-contents] take_slice yields the elements in source order"); std::mem::forget(x); k += 1; }
+            if take >= e - b { assert!(ch.next().is_none(), "[C03 helper-take-slice-len] take_slice yields nothing beyond its range"); }
+            kani::cover!(e - b == 2 && take == 1, "range partly consumed");
+        }
+        let d = drops();
+        let mut k = 0;
+        while k < N {
+            if k < len {
+                let in_range = k >= b && k < e;
+                if in_range && k - b < take { assert!(d[k] == 0, "[C08 helper-take-slice-drop] consumed elements are not dropped by the range"); }
+                else if in_range { assert!(d[k] == 1, "[C08 C15 helper-take-slice-drop] the range drops exactly the elements that were not consumed"); }
+                else { assert!(d[k] == 0, "[C08 helper-take-slice-frame] take_slice does not touch elements outside its range"); }
+            }
+            k += 1;
+        }
+        std::mem::forget(it);
+    }
+
+    // @harness name=vec_helper_split_off_right props=C08,C10,C17 kind=bounded bound="len <= 3; split position symbolic (requires left_len <= vec_len)"
+    #[kani::proof]
+    #[kani::unwind(5)]
+    #[kani::stub(std::vec::Vec::from_raw_parts, s_from_raw_parts)]
+    fn vec_helper_split_off_right() {
+        let len: usize = kani::any();
+        kani::assume(len <= N);
+        let it = mk(len);
+        let k0: usize = kani::any();
+        kani::assume(k0 <= len);                                 // requires left_len <= vec_len (the crate's debug_assert)
+        let right = unsafe { it.split_off_right(k0) };
+        assert!(right.len() == len - k0, "[C10 C08 helper-split-len] split_off_right(k) returns exactly the elements [k, len)");
+        let mut k = 0;
+        while k < N { if k < right.len() { assert!(right[k].0 == k0 + k, "[C10 C08 helper-split-contents] in source order"); } k += 1; }
+        let d = drops();
+        let mut k = 0;
+        while k < N { assert!(d[k] == 0, "[C08 helper-split-frame] split_off_right drops nothing"); k += 1; }
+        kani::cover!(k0 > 0 && k0 < len, "split in the middle");
+        std::mem::forget(right);
+        std::mem::forget(it);
+    }
 }
